@@ -9,7 +9,7 @@ use crate::rng::mix;
 use jbonsai::vocoder::Vocoder;
 
 pub fn run(ctx: &mut Ctx) {
-    let n = ctx.n(1280, 20000);
+    let n = ctx.n(1280, 60000);
     ctx.run_cases("postfilter", n, false, |ctx, rng, idx| {
         let order = if idx % 10 == 0 { 2 } else if idx % 10 == 1 { 3 } else { rng.range(3, 40) };
         let alpha = alpha_pick(rng);
@@ -206,7 +206,7 @@ pub fn end_to_end(ctx: &mut Ctx) {
     use crate::voicegen::VoiceOpts;
     let env = Env::new(ctx);
     let bundled = env.load_bundled();
-    let n = ctx.n(24, 800);
+    let n = ctx.n(24, 2000);
     ctx.run_cases("engine-beta", n, false, |ctx, rng, idx| {
         let (base, descr) = if idx % 3 == 0 {
             (bundled.clone(), "bundled".to_string())
